@@ -62,7 +62,7 @@ impl Property for C10 {
     fn exhaustive_subspaces(&self, _tier: Tier) -> Vec<String> {
         vec!["all values with n<=8 x every partner length <=12 (>= significant bits) x 20 types".into()]
     }
-    fn enumerate(&self, _tier: Tier, sh: &mut Shard, f: &mut dyn FnMut(C10Case) -> bool) {
+    fn enumerate(&self, tier: Tier, sh: &mut Shard, f: &mut dyn FnMut(C10Case) -> bool) {
         for t in 0..NT {
             let c = fixed_cap(t).unwrap_or(usize::MAX);
             for n in 0..=8usize.min(c) {
@@ -75,6 +75,17 @@ impl Property for C10 {
                             return;
                         }
                     }
+                }
+            }
+        }
+        for (t, n) in dense_lengths(tier) {
+            if !sh.mine() {
+                continue;
+            }
+            let a = dense_value(n);
+            for (m, yprov) in [(n + 1, Prov::Canon), (n + 64, Prov::Spare(200)), (n, Prov::LongThenTrunc(130))] {
+                if !f(C10Case { x: Operand::canon(t, a.clone()), y: Operand { ty: t, bits: a.zext(m), prov: yprov } }) {
+                    return;
                 }
             }
         }
